@@ -313,7 +313,7 @@ where
     T: Serialize + for<'de> Deserialize<'de> + HasShape,
 {
     let shape = T::shape();
-    let rounds = t.cfg.scale(2, 40, 400);
+    let rounds = t.cfg.scale(2, 120, 1500);
     for _ in 0..rounds {
         let got = {
             let mut g = if t.rng.chance(1, 3) { ValGen::new(&mut t.rng) } else { ValGen::small(&mut t.rng) };
@@ -790,7 +790,7 @@ pub fn run(cfg: &Cfg, which: &str) -> Report {
     rep.stats.merge(s1);
     // lane 2: random shapes x values
     let s2 = parallel(cfg, 2, |t| {
-        let cases = t.cfg.scale(40, 12_000, 600_000);
+        let cases = t.cfg.scale(40, 40_000, 1_500_000);
         let mut done = 0;
         while done < cases {
             let o = if t.rng.chance(1, 2) { ShapeOpts::full() } else { ShapeOpts::small() };
